@@ -6,7 +6,9 @@ import (
 	"strings"
 
 	"github.com/iancoleman/strcase"
+	"github.com/pentops/j5/gen/j5/schema/v1/schema_j5pb"
 	"github.com/pentops/j5/lib/j5reflect"
+	"github.com/pentops/j5/lib/j5schema"
 	"google.golang.org/grpc/codes"
 	"google.golang.org/grpc/status"
 	"google.golang.org/protobuf/reflect/protoreflect"
@@ -44,6 +46,22 @@ func propertyAtPath(root j5reflect.Root, path string) (j5reflect.Property, error
 	return root.GetProperty(tail)
 }
 
+// queryScalarValue converts the string form of a query parameter for the scalar
+// types which do not accept strings in JSON: booleans.
+func queryScalarValue(schema j5schema.FieldSchema, value string) interface{} {
+	if scalar, ok := schema.(*j5schema.ScalarSchema); ok {
+		if _, isBool := scalar.Proto.Type.(*schema_j5pb.Field_Bool); isBool {
+			switch value {
+			case "true":
+				return true
+			case "false":
+				return false
+			}
+		}
+	}
+	return value
+}
+
 func (c *Codec) decodeQuery(queryString url.Values, msg protoreflect.Message) error {
 	root, err := c.refl.NewRoot(msg)
 	if err != nil {
@@ -68,7 +86,7 @@ func (c *Codec) decodeQuery(queryString url.Values, msg protoreflect.Message) er
 			if len(values) > 1 {
 				return status.Error(codes.InvalidArgument, fmt.Sprintf("multiple values provided for non-repeated field %q", key))
 			}
-			err = scalar.SetGoValue(values[0])
+			err = scalar.SetGoValue(queryScalarValue(prop.Schema().Schema, values[0]))
 			if err != nil {
 				return status.Error(codes.InvalidArgument, fmt.Sprintf("invalid value %q for field %q", values[0], key))
 			}
@@ -77,7 +95,7 @@ func (c *Codec) decodeQuery(queryString url.Values, msg protoreflect.Message) er
 
 		if array, ok := field.AsArrayOfScalar(); ok {
 			for _, value := range values {
-				_, err = array.AppendGoValue(value)
+				_, err = array.AppendGoValue(queryScalarValue(array.ItemSchema(), value))
 				if err != nil {
 					return status.Error(codes.InvalidArgument, fmt.Sprintf("invalid value %q for field %q", value, key))
 				}
